@@ -73,6 +73,7 @@ void drv_c09_sqcorn(int tier, unsigned long seed, const char *extra) {
       callf("mpz_mul", 1, 0, 0);                                   /* s^2 */
       for (j = 0; j <= nl; j++) { if (nl > 13 && j > 2 && j < nl - 2 && j != nl / 2) continue; rs[nr].kindr = 0; rs[nr++].arg = 64L * j; rs[nr].kindr = 1; rs[nr++].arg = 64L * j; }       /* B^j, B^j - 1 */
       rs[nr].kindr = 0; rs[nr++].arg = 64L * nl - 1; rs[nr].kindr = 0; rs[nr++].arg = 32L * nl; rs[nr].kindr = 0; rs[nr++].arg = 63;
+      { static const int sh2[] = {2, 4, 6, 32, 62}; int q_; for (q_ = 0; q_ < 5; q_++) { rs[nr].kindr = 0; rs[nr++].arg = 64L * nl - sh2[q_]; } }      /* B^n shifted down by an even count: B^n in the NORMALISED operand when the wrapper shifts by that count */
       rs[nr].kindr = 2; rs[nr++].arg = 0; rs[nr].kindr = 3; rs[nr++].arg = 0; rs[nr].kindr = 4; rs[nr++].arg = 0;                                   /* s, 2s - 1, 2s */
       for (t = 0; t < nr; t++) { mp_size_t an, rn; mp_ptr a, s, r;
         if (rs[t].kindr <= 1) { callf("mpz_set_ui", 2, (uint64_t)0); callf("mpz_setbit", 2, (uint64_t)rs[t].arg); if (rs[t].kindr == 1) callf("mpz_sub_ui", 2, 2, (uint64_t)1); }
